@@ -158,6 +158,35 @@ func runNumBatch(o *suiteOut, glyphs []*numGlyph, format type1.FileFormat) {
 		o.fail("C20", "independent decoder accepts the written font", glyphs[0].caseLine(), "ok", err.Error())
 		return
 	}
+	// the library's own decoder on the same bytes: every integer (width, hint value, coordinate of an exact glyph)
+	// comes back as it was written.  Charstrings above the interpreter's string limit cannot be read back (13.9).
+	if back, err, pan := readFont(buf.Bytes()); pan != "" {
+		o.fail("C01", "no panic in the Type 1 reader", glyphs[0].caseLine(), "error value", pan)
+	} else if err == nil && back != nil {
+		for i, g := range glyphs {
+			bg := back.Glyphs[names[i]]
+			if bg == nil {
+				continue
+			}
+			line := g.caseLine()
+			even := func(s []funit.Int16) []funit.Int16 { return s[:len(s)/2*2] }
+			if fmt.Sprint(bg.HStem) != fmt.Sprint(even(g.hs)) || fmt.Sprint(bg.VStem) != fmt.Sprint(even(g.vs)) {
+				o.fail("C20", "hint values are read back as written (library decoder)", line, fmt.Sprint(even(g.hs), even(g.vs)), fmt.Sprint(bg.HStem, bg.VStem))
+			}
+			if bg.WidthX != math.Round(g.wx) || bg.WidthY != math.Round(g.wy) {
+				o.fail("C20", "advance widths are read back as written (library decoder)", line, fmt.Sprint(math.Round(g.wx), math.Round(g.wy)), fmt.Sprint(bg.WidthX, bg.WidthY))
+			}
+			if g.exact && len(bg.Cmds) == len(g.cmds) {
+				for ci := range g.cmds {
+					if fmt.Sprint(bg.Cmds[ci].Args) != fmt.Sprint(g.cmds[ci].Args) && g.cmds[ci].Op == bg.Cmds[ci].Op {
+						o.fail("C20", "coordinates of an exactly representable path are read back as written (library decoder)", line, fmt.Sprint(g.cmds[ci]), fmt.Sprint(bg.Cmds[ci]))
+						break
+					}
+				}
+			}
+		}
+		o.count("batches also read back by the library's decoder")
+	}
 	for i, g := range glyphs {
 		sg := sf.Glyphs[names[i]]
 		line := g.caseLine()
